@@ -10,6 +10,8 @@ def run(F, G, tier, seed):
     writer.run_attrorder(chk, F)
     writer.run_label_guards(chk, F)
     writer.run_textedit(chk, F)
+    from ..rules import printer
+    printer.run_total(chk, F)       # `writing never crashes`: the writer prints possibly-empty expressions
     return chk.finish(
         "Decides reader/writer agreement: every member the reading side fills is read by the writer and written under "
         "a label kind the reader accepts; endpoints, element multiplicity and order; output only through libxml2's "
